@@ -128,3 +128,45 @@ def canonicalize_roles(t: 'Tree', model: 'Model') -> 'Tree':
             and forall_idx(dict_keys(t.metadata), lambda i, k: dict_get(result.metadata, k) == dict_get(t.metadata, k)),
             label='metadata')
     ensures(t.node == old(t).node, label='argument-kept')
+
+
+# ---- indicate_branches, functionally (C12) ------------------------------------------------------------
+# (its frame contract is in c_frames.py; this second contract of the same function is the functional one)
+
+@spec
+def without_role(ts: 'list', role: 'val') -> 'list':
+    """the triples whose role is not *role*, in order"""
+    if len(ts) == 0:
+        return []
+    if ts[-1][1] == role:
+        return without_role(ts[:-1], role)
+    return without_role(ts[:-1], role) + [ts[-1]]
+
+
+@contract('penman.transform:indicate_branches@functional')
+def indicate_branches_f(g: 'Graph', model: 'Model') -> 'Graph':
+    requires(wf_triples(g.triples))
+    requires(forall_idx(g.triples, lambda k, t: epis_wf(markers_of(g.epidata, t))))
+    requires(dict_wf(g.epidata) and dict_wf(g.metadata))
+    requires(is_str(top_role(model)) and top_role(model).startswith(':'))
+    # the graph has no top-role triple yet (they are what this transformation adds)
+    requires(forall_idx(g.triples, lambda k, t: t[1] != top_role(model) and t[1].startswith(':')))
+    raises(AssertionError)     # recorded finding N14 (a Push of the source on a triple whose target is no string)
+    # removing the top-role triples gives back the original triples, in order: nothing else is added,
+    # dropped or moved
+    ensures(without_role(result.triples, top_role(model)) == g.triples, label='only-top-role-triples-added')
+    ensures(result._top == g._top if g._top is not None else True, label='top')
+    ensures(g.triples == old(g).triples, label='argument-kept')
+    invariant(0, lambda: is_list(new_triples) and without_role(new_triples, top_role(model)) == g.triples[:_i])
+    invariant(0, lambda: forall_idx(new_triples, lambda k, t: is_tuple(t) and len(t) == 3 and is_str(t[1])
+                                    and t[1].startswith(':')))
+    invariant(0, lambda: g.triples == old(g).triples)
+    use('loop0.step.0', lambda: without_role_snoc(init(new_triples), last(new_triples), top_role(model)))
+    use('loop0.step.0', lambda: without_role_snoc(init(init(new_triples)), last(init(new_triples)), top_role(model)))
+
+
+@lemma
+def without_role_snoc(ts: 'list', x: 'val', role: 'val'):
+    """one unfolding of without_role"""
+    ensures(without_role(ts + [x], role)
+            == (without_role(ts, role) if x[1] == role else without_role(ts, role) + [x]))
